@@ -111,5 +111,29 @@ DecodeOK == \A i \in 1..Len(D) :
         /\ Len(tb[2]) = Len(blocks[i].recs)
         /\ \A r \in 1..Len(tb[2]) : tb[2][r] = [k \in 1..Len(blocks[i].recs[r]) |-> <<"part", i, r, k>>]
 
+---------------------------------------------------------------------------
+(* Named subsets.  rdop2mats / rdmats take a list of patterns: an exact name *)
+(* or a prefix followed by "*".  Reading a named subset is filtering the     *)
+(* full read: a data block is returned iff SOME pattern matches its name, in *)
+(* file order, whatever the order of the patterns.  Names and prefixes are   *)
+(* sequences of characters (TLC strings are atomic).                         *)
+Chars(s) == s
+NamePool == { <<"K", "H", "H">>, <<"K", "H", "H", "X">>, <<"M", "H", "H">>, <<"M", "A", "A">>, <<"K", "4", "H", "H">> }
+Pats == { [pre |-> <<"K", "H", "H">>, wild |-> FALSE], [pre |-> <<"K", "H", "H">>, wild |-> TRUE], [pre |-> <<"K">>, wild |-> TRUE],
+          [pre |-> <<"M">>, wild |-> TRUE], [pre |-> <<"M", "A", "A">>, wild |-> TRUE], [pre |-> <<"M", "H", "H">>, wild |-> FALSE],
+          [pre |-> <<"Q">>, wild |-> TRUE], [pre |-> <<"K", "4", "H", "H">>, wild |-> FALSE], [pre |-> <<>>, wild |-> TRUE] }
+MatchOne(name, pat) == IF pat.wild THEN Len(name) >= Len(pat.pre) /\ SubSeq(name, 1, Len(pat.pre)) = pat.pre ELSE name = pat.pre
+Matches(name, pl) == \E i \in 1..Len(pl) : MatchOne(name, pl[i])
+SubsetOf(file, pl) == SelectSeq(file, LAMBDA nm : Matches(nm, pl))
+Files2 == {f \in NamePool \X NamePool : f[1] # f[2]}        \* two data blocks with different names, in file order
+PatLists == {<<p>> : p \in Pats} \cup {pq \in Pats \X Pats : pq[1] # pq[2]}
+Rev(sq) == [i \in 1..Len(sq) |-> sq[Len(sq) + 1 - i]]
+SubsetLaws == \A f \in Files2 : \A pl \in PatLists :
+   /\ SubsetOf(f, pl) = SubsetOf(f, Rev(pl))                                   \* the order of the patterns does not matter
+   /\ \A i \in 1..Len(f) : (\E k \in 1..Len(SubsetOf(f, pl)) : SubsetOf(f, pl)[k] = f[i]) <=> (\E j \in 1..Len(pl) : MatchOne(f[i], pl[j]))
+   /\ (Len(pl) = 2 => \A i \in 1..Len(f) : Matches(f[i], pl) <=> (MatchOne(f[i], pl[1]) \/ MatchOne(f[i], pl[2])))
+ExportSubsets == (Export /\ Len(blocks) = 1 /\ blocks[1] = CHOOSE b \in Blocks : TRUE) =>
+   PrintT(<<"SUBSETS", {<<f, {<<pl, SubsetOf(f, pl)>> : pl \in PatLists}>> : f \in Files2}>>)
+
 ExportOK == Export => PrintT(<<"OP2", blocks, toks, D>>)
 =============================================================================
